@@ -48,6 +48,7 @@ func propC03(r *kernel.Run) {
 		fieldsOK := true
 		fieldCase := "complete"
 		tokenReq := false
+		lenient := false
 		if libMade {
 			// a request a node creates through the library, under the simulated clock
 			created := time.Now()
@@ -140,7 +141,18 @@ func propC03(r *kernel.Run) {
 			}
 			if tp.Draw(8) == 0 {
 				fieldsOK = false
-				switch tp.Draw(4) {
+				switch tp.Draw(5) {
+				case 4:
+					// an X25519 key of the wrong length (a correctly signed request can carry anything here)
+					sp.EncPub = append([]byte(nil), id.EncPub[:tp.Range(1, 31)]...)
+					if tp.Draw(3) == 0 {
+						sp.EncPub = append(append([]byte(nil), id.EncPub...), tp.Bytes(tp.Range(1, 33))...)
+					}
+					fieldCase = "encryption-key-of-wrong-length"
+					// the statement asks for required fields "present with supported key types"; it says nothing about the key's
+					// length, and the library refuses such a key only when it comes to use it. Judged for panics only.
+					lenient = true
+					fieldsOK = true
 				case 3:
 					fieldCase = "key-of-other-algorithm"
 				case 0:
@@ -314,6 +326,8 @@ func propC03(r *kernel.Run) {
 		desc := fmt.Sprintf("%s corrupt=%s fields=%s now-lo=%v hi-now=%v nbSkew=%v naSkew=%v libMade=%v", tname, corrupt, fieldCase, now.Sub(lo), hi.Sub(now), nbSkew, naSkew, libMade)
 		processed := calls > 0
 		switch {
+		case lenient:
+			r.Count("probe.wrong_length_key_"+map[bool]string{true: "refused", false: "processed"}[err != nil], 1)
 		case !expectAccept && !(onEdge && corrupt == "none" && fieldsOK):
 			if processed {
 				r.Violate("reject-before-storage", "processed-invalid/"+rejectClass(corrupt, fieldCase, place), "an invalid request got as far as an authorization lookup or a storage write (%d such calls): %s", calls, desc)
